@@ -350,7 +350,7 @@ func (p *prober) semantic(t *rapid.T, b *base) (string, []byte) {
 	w := p.w
 	switch b.endpoint {
 	case "swap", "mint":
-		how := rapid.SampledFrom([]string{"outputs_over_by_one", "dup_output_identical", "dup_output_changed_witness", "dup_output_changed_amount", "dup_output_other_hex_case", "unknown_keyset_output", "non_key_amount_output", "output_not_a_point", "already_signed_output", "overflow_outputs", "spent_input", "unknown_quote", "nut10_secret_input", "nut10_secret_input", "nut10_secret_input"}).Draw(t, "sem_how")
+		how := rapid.SampledFrom([]string{"outputs_over_by_one", "dup_output_identical", "dup_output_changed_witness", "dup_output_changed_amount", "dup_output_other_hex_case", "unknown_keyset_output", "inactive_keyset_output", "inactive_keyset_output", "inactive_keyset_output", "non_key_amount_output", "output_not_a_point", "already_signed_output", "overflow_outputs", "spent_input", "unknown_quote", "nut10_secret_input", "nut10_secret_input", "nut10_secret_input"}).Draw(t, "sem_how")
 		outs := b.body["outputs"].([]any)
 		switch how {
 		case "outputs_over_by_one":
@@ -404,6 +404,18 @@ func (p *prober) semantic(t *rapid.T, b *base) (string, []byte) {
 			b.body["outputs"] = append(outs, up)
 		case "unknown_keyset_output":
 			outs[0].(map[string]any)["id"] = "00aabbccddeeff00"
+		case "inactive_keyset_output":
+			// an output (any position) names a keyset the mint knows but has rotated out: everything else is in order
+			var retired []string
+			for _, id := range w.KSOrder {
+				if id != w.ActiveID {
+					retired = append(retired, id)
+				}
+			}
+			if len(retired) == 0 {
+				return "", nil
+			}
+			outs[rapid.IntRange(0, len(outs)-1).Draw(t, "sem_pos")].(map[string]any)["id"] = rapid.SampledFrom(retired).Draw(t, "sem_retired")
 		case "non_key_amount_output":
 			if first := outs[0].(map[string]any); first["amount"].(uint64) >= 4 {
 				first["amount"] = first["amount"].(uint64) - 1
